@@ -65,7 +65,7 @@ CHECKS = {
          "Sanitizers see only executed paths; red-zone tools miss far/intra-object accesses; Miri runs are small (no zstd: no C FFI under Miri)."),
  "C18": ("exploration", "4.C18", "perturbed-sequence workload against the real writer in release and checked builds; outcome classified (panic point vs independent per-block order check)",
          "Each sequence must either panic (justified only by a non-ascending prefix) or yield a file all of whose blocks are strictly ascending per the independent decoder; perturbations aimed at block starts; both plain release and debug-assertion builds.",
-         "A panicking writer is abandoned, never reused."),
+         "A panicking writer is abandoned (dropped), never reused."),
 }
 
 def main():
